@@ -433,6 +433,16 @@ def r14_7(ctx, m):
     e = inline_at(cfg, rd, tests[0].id, lhs, depth=3)
     good = None
     det = src(e)
+    guarded0 = False
+    if isinstance(e, ast.IfExp) and isinstance(e.orelse, ast.Constant) and e.orelse.value in (0, 0.0) and isinstance(e.test, ast.Compare) \
+            and isinstance(e.body, ast.BinOp):
+        tt = e.test
+        den = src(e.body.right)
+        pos = (isinstance(tt.ops[0], (ast.Gt, ast.NotEq)) and src(tt.left) == den and src(tt.comparators[0]) in ("0", "0.0")) or \
+              (isinstance(tt.ops[0], (ast.Lt, ast.NotEq)) and src(tt.comparators[0]) == den and src(tt.left) in ("0", "0.0"))
+        if pos:
+            guarded0 = True
+            e = e.body
     if isinstance(e, ast.BinOp) and isinstance(e.op, ast.Div) and isinstance(e.right, ast.Call) and call_name(e.right) in ("max", "maximum"):
         args = [src(a).replace(" ", "") for a in e.right.args]
         num = src(e.left).replace(" ", "")
@@ -451,6 +461,16 @@ def r14_7(ctx, m):
         if extra and not all(tiny(a) for a in extra):
             det += f" - the floor {extra} makes the test absolute whenever |E| is below it"
     ctx.check("R14.7", key, good, det, ck, t)
+    # energies are Python floats (ducc vdot): 0/0 raises - and every inversion that starts at x0 = 0 starts with E_old = E = 0
+    from ..util import known_atoms
+    at = known_atoms(cfg, tests[0].id)
+    first_excluded = any("_itcount" in src(tt) for tt, _ in at)
+    div_nodes = [n for n in cfg.nodes if n.kind == "stmt" and n.ast is not None and any(isinstance(z, ast.BinOp) and isinstance(z.op, ast.Div) and "max(" in src(z.right) for z in ast.walk(n.ast))]
+    unguarded = [n for n in div_nodes if not any("_itcount" in src(tt) for tt, _ in known_atoms(cfg, n.id))]
+    ctx.check("R14.7", f"{ck.key}::no 0/0 between two vanishing energies (first check, inversion from x0 = 0)",
+              bool(guarded0 and not unguarded) if good else None,
+              "the quotient is evaluated only for a positive denominator" if guarded0 and not unguarded else
+              f"`{det[:80]}` is evaluated with E_old = E = 0 (line {unguarded[0].lineno if unguarded else t.lineno}): ZeroDivisionError for Python floats", ck, t)
 
 
 _run_c14b = run
